@@ -70,6 +70,11 @@ def cases(rng, tier):
                 c["a"][rng.randrange(0, max(1, m // 2))] = str(rng.choice([10 ** 22, -25 * 10 ** 20, 3 * 10 ** 18]))
             if kind == "roundtrip":
                 c["n"] = rng.randint(2, 16)
+            elif rng.random() < 0.15:
+                # saturated / divided-by-zero readings: a block that holds +inf has mean +inf (only the NaN padding is
+                # ignored); not expressible over an ordered field, so these cases are judged by the oracle alone
+                c["inf"] = sorted({rng.randrange(m) for _ in range(rng.randint(1, 3))})
+                c["infsign"] = rng.choice([1, 1, -1])
         yield c
 
 
@@ -80,6 +85,8 @@ def A(c, k="a"):
 def request(c):
     k, n = c["kind"], c["n"]
     a = A(c)
+    if c.get("inf"):
+        return []
     if k == "oversample":
         return f"oversample {c['sub']} {n} {fmt_list(a)}"
     if k == "extendlin":
@@ -175,6 +182,10 @@ def run_impl(c):
             import warnings
             with warnings.catch_warnings():
                 warnings.simplefilter("ignore")
+                if c.get("inf"):
+                    a = np.array(a, dtype=float)
+                    a[c["inf"]] = c["infsign"] * np.inf
+                    a = S.arr(a)
                 x, y = average(S.arr(floats(A(c, "x"))), a, n)
             return {"ok": [lst(x), lst(y)]}
         if k == "roundtrip":
@@ -210,6 +221,8 @@ def rows_eq(impl, model):
 
 def compare(c, io, mo):
     k = c["kind"]
+    if c.get("inf"):
+        return None
     m0 = mo[0]
     if "err" in io:
         if m0 == f"ERR {io['err']}" or m0 == "unmodelled":
@@ -356,8 +369,14 @@ def oracle(c, io):
         rows = -(-m // n)
         if len(rx) != rows or len(ry) != rows:
             return "average: wrong number of rows"
+        for j in c.get("inf", []):
+            af[j] = c["infsign"] * math.inf
         for ri in range(rows):
             blk = af[ri * n:(ri + 1) * n]
+            if any(math.isinf(v) for v in blk):
+                if rx[ri] != x[ri * n] or ry[ri] != c["infsign"] * math.inf:
+                    return f"average row {ri}: ({rx[ri]}, {ry[ri]}), block {blk} (an infinite reading is not padding)"
+                continue
             if rx[ri] != x[ri * n] or abs(ry[ri] - sum(blk) / len(blk)) > 1e-9 * max(1, abs(ry[ri])):
                 return f"average row {ri}: ({rx[ri]}, {ry[ri]}), block {blk}"
     elif k == "roundtrip":
